@@ -160,6 +160,9 @@ class H11Protocol:
                     # full, the connection cannot be reused (and will be
                     # closed after the response) which is to be said.
                     or self.connection.their_state is h11.SEND_BODY
+                    # A WebSocket handshake that is refused, the connection
+                    # is not used for anything else after it.
+                    or (isinstance(self.stream, WSStream) and event.status_code != 101)
                 ) and (b"connection", b"close") not in headers:
                     headers.append((b"connection", b"close"))
                 await self._send_h11_event(
